@@ -30,6 +30,15 @@ pub trait Tvo {
     fn vo_second(&self) -> u64 { 2 }
     fn vo_third(&self) -> u64;
 }
+/// a `#[skip_func]` method declared BETWEEN exported ones owns NO slot ("one function pointer per
+/// exported method")
+#[cglue_trait]
+pub trait Tsk {
+    fn sk_first(&self) -> u64;
+    #[skip_func]
+    fn sk_skipped(&self) -> u64 { 2 }
+    fn sk_third(&self) -> u64;
+}
 macro_rules! impl_all { ($t:ty, $k:expr) => {
     impl Tzed for $t {
         fn z2(&self) -> u64 { self.v ^ 1 ^ $k }
@@ -41,6 +50,7 @@ macro_rules! impl_all { ($t:ty, $k:expr) => {
     impl Tabc for $t { fn q(&self) -> u64 { self.v ^ 3 ^ $k } }
     impl Tyop for $t { fn y(&self) -> u64 { self.v ^ 4 ^ $k } }
     impl Tbop for $t { fn b(&self) -> u64 { self.v ^ 6 ^ $k } fn a(&self) -> u64 { self.v ^ 7 ^ $k } }
+    impl Tsk for $t { fn sk_first(&self) -> u64 { self.v ^ 21 } fn sk_third(&self) -> u64 { self.v ^ 23 } }
     impl Tvo for $t { fn vo_first(&self) -> u64 { self.v ^ 11 } fn vo_second(&self) -> u64 { self.v ^ 12 } fn vo_third(&self) -> u64 { self.v ^ 13 } }
 } }
 impl_all!(Imp, 0);
